@@ -941,6 +941,7 @@ static void do_start(int h)
   char flags[128] = "";
   int argvnull = 0, usewd = 0, rfile = 0, rpath = 0, want_ident = 0, nofile = 0, hlow = 0;
   const char *inchild = NULL;
+  int selffile[3] = { -1, -1, -1 };  // f<stream>std=N: the caller's own stdout (1) / stderr (2) FILE as the redirect FILE
   long bigarg = 0;  // bigarg=N: one argument of N bytes (beyond MAX_ARG_STRLEN the kernel refuses the exec with E2BIG)
   int selffd[3] = { -1, -1, -1 };  // h<stream>fd=N: the caller passes its own descriptor N as the handle (1>&2 style)
   const char *runex = NULL, *argvx = NULL, *envx = NULL, *wdx = NULL, *progx = NULL;
@@ -1001,6 +1002,8 @@ static void do_start(int h)
     else if ((v = kv(t, "handlemode"))) handlemode = v;
     else if ((v = kv(t, "inchild"))) inchild = v;
     else if ((v = kv(t, "bigarg"))) bigarg = atol(v);
+    else if ((v = kv(t, "foutstd"))) selffile[1] = atoi(v);
+    else if ((v = kv(t, "ferrstd"))) selffile[2] = atoi(v);
     else if ((v = kv(t, "hinfd"))) selffd[0] = atoi(v);
     else if ((v = kv(t, "houtfd"))) selffd[1] = atoi(v);
     else if ((v = kv(t, "herrfd"))) selffd[2] = atoi(v);
@@ -1030,6 +1033,11 @@ static void do_start(int h)
     if (selffd[s] >= 0) {
       rd[s]->type = REPROC_REDIRECT_HANDLE;
       rd[s]->handle = selffd[s];
+      continue;
+    }
+    if (selffile[s] == 1 || selffile[s] == 2) {
+      rd[s]->type = REPROC_REDIRECT_FILE;
+      rd[s]->file = selffile[s] == 1 ? stdout : stderr;
       continue;
     }
     if (rd[s]->type == REPROC_REDIRECT_HANDLE || rd[s]->handle == -2) {
